@@ -268,11 +268,26 @@ def run(ctx):
                                                                                       ["Sequence", [[None, ["name", "Byte"]], [None, ["name", "Int16ub"]]]]]], False]], ["t", ["name", "Byte"]]]],
          [b"\x09\x03\x01\x02\x03\x07", b"\x09\x03\x01\x01\x41\x07", b"\x09\x04\x01\x02\x03\x04\x07"]),
         (["BitStruct", [["a", ["name", "Flag"]], [None, ["Padding", 3]], ["b", ["name", "Nibble"]]]], [bytes([x]) for x in range(256)]),
+        # multi-byte bit integers with every flag combination, on inputs whose bytes have different top bits
         # streamed bit regions: a repeated field whose width does not divide the data, alone and in front of a tail field
         (["Bitwise", ["GreedyRange", ["BitsInteger", 3, False, False]]], [b"\xff", b"\xff\x00", b"\xa5\x5a\xff", b"", b"\x01\x02\x03\x04"]),
         (["Bitwise", ["Struct", [["xs", ["GreedyRange", ["BitsInteger", 3, False, False]]], ["tail", ["BitsInteger", 2, False, False]]]]], [bytes([x]) for x in range(0, 256, 7)] + [b"\xff\xff", b"\x12\x34\x56"]),
         (["Bitwise", ["Struct", [["a", ["name", "Nibble"]], ["o", ["Optional", ["BitsInteger", 12, False, False]]], ["b", ["name", "Nibble"]]]]], [b"\x5a", b"\x5a\xbc", b"\x5a\xbc\xde", b"\x5a\xbc\xde\xf0"]),
     ]
+    SIGNS = [b"\xff\x7f", b"\x00\x80", b"\x80\x00", b"\x7f\xff", b"\x80\x7f", b"\x01\x80", b"\xff\xff", b"\x00\x00"]
+    for w in (16, 24, 32):
+        for sg in (False, True):
+            for sw in (False, True):
+                pats = [p + bytes(w // 8 - 2) for p in SIGNS] + [bytes(w // 8 - 2) + p for p in SIGNS] + [bytes(rng.randrange(256) for _ in range(w // 8)) for _ in range(8)]
+                classics.append((["Bitwise", ["BitsInteger", w, sg, sw]], pats))
+                classics.append((["BitStruct", [["v", ["BitsInteger", w, sg, sw]], ["t", ["name", "Octet"]]]], [p + b"\x5a" for p in pats]))
+    # adapters that present part of a list (the value parsed is shorter than what was read; build fills in the rest)
+    A4, B1 = ["Array", 4, ["name", "Byte"]], [b"\x01\x02\x03\x04", b"\x00\x00\x00\x00", b"\xff\xfe\xfd\xfc", b"\x01\x02\x03"]
+    for start, stop, step in ((0, 2, 1), (1, 3, 1), (0, 4, 2), (1, 4, 2), (0, None, 1), (None, None, 1), (2, None, 1), (0, 3, 3), (0, 1, 1), (3, 4, 1)):
+        classics.append((["Slicing", A4, 4, start, stop, step, 0], B1))
+        classics.append((["Struct", [["h", ["name", "Byte"]], ["s", ["Slicing", A4, 4, start, stop, step, 9]], ["t", ["name", "Byte"]]]], [b"\x07" + b + b"\x08" for b in B1]))
+    for idx in (0, 1, 3):
+        classics.append((["Indexing", A4, 4, idx, 0], B1))
     for i, (r, ins) in enumerate(classics):
         if not ctx.mine(i):
             continue
